@@ -30,7 +30,7 @@ TIERS = {
     "quick": dict(split="MC_Split_5.cfg", gen="Gen_Expand_quick.cfg", read="Gen_ReadSplit_4.cfg",
                   nrandom=30000, nread=4000, trace_timeout=600, gen_timeout=600),
     "thorough": dict(split="MC_Split_7.cfg", gen="Gen_Expand_thorough.cfg", read="Gen_ReadSplit_6.cfg",
-                     nrandom=300000, nread=40000, trace_timeout=2400, gen_timeout=2400),
+                     nrandom=200000, nread=30000, trace_timeout=2400, gen_timeout=2400),
 }
 
 
@@ -212,7 +212,13 @@ def run(tier):
         "distinct_nontrivial": s_words["cases"] + s_read["cases"],
         "rule": "distinct (word AST, shell state, IFS, nounset) vectors and (line, #vars, IFS) vectors enumerated by TLC "
                 "and executed on the real shell; random recorded vectors counted separately",
-        "exhaustive": True,
+        "exhaustive": tier == "thorough",
+        "exhaustive_over": ("all one-unit words of the alphabet U of Gen_Expand x 12 states x 5 IFS values x nounset; "
+                            + ("all pairs with a Core unit and all triples Core x Mid x Core"
+                               if tier == "thorough" else
+                               "a seeded 1/4 sample of the pairs with a Core unit and of the triples Core x Mid x Core")
+                            + "; all read lines up to the bound x 5 IFS values x 1..3 variables; "
+                              "all attributed strings up to the bound for the Split theorems"),
         "bounds": {"split_theorems": cfg["split"], "enumeration": cfg["gen"], "read": cfg["read"],
                    "random_words": cfg["nrandom"], "random_read_lines": cfg["nread"],
                    "random_word_units": "<= 12 (nested units included)", "random_value_chars": "<= 8"},
